@@ -181,6 +181,7 @@ W_PIECES = ["<div>", "</div>", "<p>", "</p>", "<span id=a>", "</span>", "<br>", 
             "&#9;x&#10;", "&nbsp;", "\x0b", "a&#32;", "&#32;b", "<pre>\n", "</pre>", "<textarea>", "</textarea>", "<title>", "</title>",
             "<script>", "</script>", "<a href=x>", "</a>", "<b>", "</b>", "<i>", "</i>", "<select>", "<option>", "</select>",
             "<ul>", "<li>", "</ul>", "<h1>", "</h1>", "<x-y z:w=1>", "<p {}y=1>", "<p {x}=2>", "<p {x}y=3>", "<{}q>",
+            "<html xml:lang=a lang=b>", "<body a:x=1 b:x=2 x=3>", "<body lang=c xml:lang=d>", "<p xml:lang=e lang=f>",
             "<frameset>", "<frame>", "</frameset>", "<body a=b>", "<html c=d>", "<head>", "</head>", "</body>", "</html>",
             "\x00", "\U0001f600", "\ud800", "é"]
 W_HEADS = ["", "", "<!DOCTYPE html>", "<!doctype html public \"-//W3C//DTD HTML 4.01//EN\" \"http://www.w3.org/TR/html4/strict.dtd\">",
@@ -192,6 +193,8 @@ WITNESS = {
     "etree-clark-empty-part": "<p {}y=1>",
 }
 ADVERSARIAL = [
+    "<html xml:lang=en lang=en-GB>", "<p>first</p><body lang=fr xml:lang=fr-CA a:x=1 b:x=2><p>second",
+    "<html a:x=1><html b:x=2 x=3><body x:href=4><body href=5 xlink:href=6>", "<p xml:lang=en lang=de a:x=1 b:x=2>",
     "<event-source>x</event-source>", "<event-source><b>y</b> z</event-source>w", "<event-source></event-source>", "<command>x",
     "<p {}y=1>", "<p {x}=1>", "<p {x}y=1>", "<{}y>z", "<svg {}y=1 xlink:href=q>",
     "<!--a--><!DOCTYPE html><!--b--><html><!--c--><head></head><!--d--><body></body></html><!--e-->",
